@@ -35,6 +35,62 @@ Inductive fn_sim : fn -> fn -> Prop :=
 | FS_base o : fn_scalar o -> fn_sim (FBase o) (FBase o)
 | FS_wrap b1 b2 d c f1 f2 : fn_sim f1 f2 -> fn_sim (FWrap b1 d c f1) (FWrap b2 d c f2).
 
+(** Literal operands do not contain the specification's marker. *)
+Definition lit_ok (l : lit) : Prop :=
+  match l with
+  | LArr xs _ => ~ In AProbe xs
+  | LRec fs _ => ~ In AProbe (map snd fs)
+  end.
+
+(** The observers covered by the theorems: everything but record merge (a merged field is
+    [(x & y) | contracts]: the merge looks at x before the check, see the report) and the
+    deliberately broken primitives. *)
+Inductive supported : obs -> Prop :=
+| S_id : supported OId
+| S_const z : supported (OConst z)
+| S_constb b : supported (OConstB b)
+| S_consts s : supported (OConstS s)
+| S_addk k : supported (OAddK k)
+| S_gtk k : supported (OGtK k)
+| S_eqk k : supported (OEqK k)
+| S_comp o1 o2 : supported o1 -> supported o2 -> supported (OComp o1 o2)
+| S_atp i : supported (OAtP i)
+| S_at i : supported (OAt i)
+| S_first : supported OFirst
+| S_last : supported OLast
+| S_length : supported OLength
+| S_map f : supported f -> supported (OMap f)
+| S_concatr l : lit_ok l -> supported (OConcatR l)
+| S_concatl l : lit_ok l -> supported (OConcatL l)
+| S_slice s e : supported (OSlice s e)
+| S_slicep s e : supported (OSliceP s e)
+| S_foldl f i : supported (OFoldL f i)
+| S_foldr f i : supported (OFoldR f i)
+| S_filter p : supported p -> supported (OFilter p)
+| S_any p : supported p -> supported (OAny p)
+| S_all p : supported p -> supported (OAll p)
+| S_elem z : supported (OElem z)
+| S_reverse : supported OReverse
+| S_flatten : supported OFlatten
+| S_seq : supported OSeq
+| S_deepseq : supported ODeepSeq
+| S_serde : supported OSerde
+| S_eqr l : lit_ok l -> supported (OEqR l)
+| S_eql l : lit_ok l -> supported (OEqL l)
+| S_ctr c : supported (OCtr c)
+| S_access k : supported (OAccess k)
+| S_get k : supported (OGet k)
+| S_fields : supported OFields
+| S_values : supported OValues
+| S_recmap f : supported (ORecMap f)
+| S_mapvalues f : supported f -> supported (OMapValues f)
+| S_freeze : supported OFreeze
+| S_insert k z : supported (OInsert k z)
+| S_remove k : supported (ORemove k)
+| S_hasfield k : supported (OHasField k)
+| S_toarray : supported OToArray
+| S_call a : a <> AProbe -> supported (OCall a).
+
 Section Rel.
   Variable Hole : forall A : Type, res A -> Prop.
   Hypothesis Hole_bind : forall A B (r : res A) (k : A -> res B), Hole A r -> Hole B (bind r k).
@@ -47,7 +103,7 @@ Section Rel.
 
   Inductive RelR {A : Type} (RA : A -> A -> Prop) : res A -> res A -> Prop :=
   | RR_hole r2 : Hole A r2 -> RelR RA (Err EProbe) r2
-  | RR_err e1 e2 : err_sim e1 e2 -> RelR RA (Err e1) (Err e2)
+  | RR_err e1 e2 : e1 <> EProbe -> err_sim e1 e2 -> RelR RA (Err e1) (Err e2)
   | RR_ok a1 a2 : RA a1 a2 -> RelR RA (Ok a1) (Ok a2).
 
   Inductive RelV : lval -> lval -> Prop :=
@@ -83,12 +139,12 @@ Section Rel.
   Proof.
     intros A B RA RB r1 r2 k1 k2 H K. destruct H; cbn.
     - constructor. now apply Hole_bind.
-    - now constructor.
+    - constructor; assumption.
     - now apply K.
   Qed.
 
-  Lemma relR_err : forall A (RA : A -> A -> Prop) e, RelR RA (Err e) (Err e).
-  Proof. intros. constructor. apply err_sim_refl. Qed.
+  Lemma relR_err : forall A (RA : A -> A -> Prop) e, e <> EProbe -> RelR RA (Err e) (Err e).
+  Proof. intros. constructor; [assumption | apply err_sim_refl]. Qed.
 
   Lemma same_ctrs_nil : forall q, same_ctrs q [] -> q = [].
   Proof. intros [|x q] H; [reflexivity | discriminate]. Qed.
@@ -171,6 +227,9 @@ Section Rel.
   Lemma blame_sim : forall b1 b2, err_sim (blame b1) (blame b2).
   Proof. intros [] []; cbn; unfold err_sim; cbn; auto. Qed.
 
+  Lemma relR_blame : forall A (RA : A -> A -> Prop) b1 b2, RelR RA (Err (blame b1)) (Err (blame b2)).
+  Proof. intros. constructor; [destruct b1; discriminate | apply blame_sim]. Qed.
+
   Lemma Forall2_map2 : forall {A B C D} (R : A -> B -> Prop) (R' : C -> D -> Prop) f g l1 l2,
     Forall2 R l1 l2 -> (forall x y, R x y -> R' (f x) (g y)) -> Forall2 R' (map f l1) (map g l2).
   Proof. induction 1; cbn; constructor; auto. Qed.
@@ -204,16 +263,19 @@ Section Rel.
   Lemma Forall2_length' : forall {A B} (R : A -> B -> Prop) l1 l2, Forall2 R l1 l2 -> List.length l1 = List.length l2.
   Proof. induction 1; cbn; auto. Qed.
 
+  Lemma forallb_ext : forall {A} (f g : A -> bool) l, (forall x, f x = g x) -> forallb f l = forallb g l.
+  Proof. induction l; cbn; intros; auto. rewrite H, IHl; auto. Qed.
+
   Lemma apply_ctr_rel : forall c b1 b2 r1 r2,
     RelC r1 r2 -> RelC (apply_ctr b1 c r1) (apply_ctr b2 c r2).
   Proof.
     induction c; intros b1 b2 r1 r2 H; unfold apply_ctr; eapply relR_bind; eauto;
       intros v1 v2 HV.
     - (* CDyn *) now constructor.
-    - (* CNum *) inversion HV; subst; try (constructor; apply blame_sim). constructor. constructor.
-    - (* CStr *) inversion HV; subst; try (constructor; apply blame_sim). constructor. constructor.
+    - (* CNum *) inversion HV; subst; try (apply relR_blame). constructor. constructor.
+    - (* CStr *) inversion HV; subst; try (apply relR_blame). constructor. constructor.
     - (* CArr *)
-      inversion HV; subst; try (constructor; apply blame_sim).
+      inversion HV; subst; try (apply relR_blame).
       constructor. apply RV_arr'. intros q1 q2 n S1 S2. unfold prim_array_lazy_app in *.
       apply same_ctrs_snoc_inv in S1 as [q1' [b1' [-> S1]]].
       apply same_ctrs_snoc_inv in S2 as [q2' [b2' [-> S2]]]. cbn [snd].
@@ -221,13 +283,13 @@ Section Rel.
       eapply Forall2_map2; [apply (H0 q1' q2' n S1 S2)|].
       intros x y Hxy. cbn beta. rewrite !eval_TCtr. now apply IHc.
     - (* CDictT *)
-      inversion HV; subst; try (constructor; apply blame_sim).
+      inversion HV; subst; try (apply relR_blame).
       constructor. apply RV_rec'. unfold prim_record_map.
       eapply Forall2_map2; [exact H0|]. intros f1 f2 [E F]. split; [exact E|].
       intros q1 q2 n S1 S2. cbn [fst snd] in *. apply same_ctrs_nil in S1, S2. subst. cbn [tctrs fold_left].
       rewrite !eval_TCtr. apply IHc. apply F; apply same_ctrs_refl.
     - (* CDictC *)
-      inversion HV; subst; try (constructor; apply blame_sim).
+      inversion HV; subst; try (apply relR_blame).
       constructor. apply RV_rec'. unfold prim_record_lazy_app.
       eapply Forall2_map2; [exact H0|]. intros f1 f2 [E F]. split; [exact E|].
       intros q1 q2 n S1 S2. cbn [fst snd] in *.
@@ -235,17 +297,17 @@ Section Rel.
       apply same_ctrs_snoc_inv in S2 as [q2' [b2' [-> S2]]]. cbn [snd].
       rewrite !tctrs_snoc, !eval_TCtr. apply IHc. now apply F.
     - (* CRecT *)
-      inversion HV; subst; try (constructor; apply blame_sim).
+      inversion HV; subst; try (apply relR_blame).
       pose proof (FldR_keys _ _ H0) as K.
       assert (forallb (fun n => has_key n fs1) names = forallb (fun n => has_key n fs2) names) as E1.
       { apply forallb_ext. intros. now apply has_key_keys. }
-      assert (forallb (fun fl : field => mem_str (fst fl) names) fs1
-              = forallb (fun fl : field => mem_str (fst fl) names) fs2) as E2.
+      rewrite E1.
+      match goal with |- context [forallb ?f fs1] => assert (forallb f fs1 = forallb f fs2) as E2 end.
       { clear -K. revert fs2 K. induction fs1 as [|f1 l1 IH]; intros [|f2 l2] K; try discriminate; auto.
         cbn in *. injection K as -> K. f_equal. auto. }
-      rewrite E1, E2.
-      destruct (negb (forallb (fun n => has_key n fs2) names)); [constructor; apply blame_sim|].
-      destruct (negb (forallb (fun fl : field => mem_str (fst fl) names) fs2)); [constructor; apply blame_sim|].
+      rewrite E2.
+      destruct (negb (forallb (fun n => has_key n fs2) names)); [apply relR_blame|].
+      match goal with |- context [if ?b then _ else _] => destruct b; [apply relR_blame|] end.
       constructor. apply RV_rec'. clear E1 E2.
       induction names as [|nm names IHn]; cbn; [constructor|].
       pose proof (FldR_lookup _ _ nm H0) as L.
@@ -254,19 +316,20 @@ Section Rel.
       intros q1 q2 n S1 S2. cbn [fst snd] in *. apply same_ctrs_nil in S1, S2. subst. cbn [tctrs fold_left].
       rewrite !eval_TCtr. apply IHc. apply (L p1 p2 n); apply same_ctrs_refl.
     - (* CRecC *)
-      inversion HV; subst; try (constructor; apply blame_sim).
+      inversion HV; subst; try (apply relR_blame).
       pose proof (FldR_keys _ _ H0) as K.
       pose proof (FldR_filter (fun k => negb (mem_str k names)) _ _ H0) as FL.
       pose proof (FldR_filter (fun k => mem_str k names) _ _ H0) as FC.
+      cbn beta in FL, FC.
       assert (forallb (fun n => has_key n fs1) names = forallb (fun n => has_key n fs2) names) as E1.
       { apply forallb_ext. intros. now apply has_key_keys. }
-      rewrite E1.
-      assert ((match filter (fun fl : field => negb (mem_str (fst fl) names)) fs1 with [] => true | _ => false end)
-              = (match filter (fun fl : field => negb (mem_str (fst fl) names)) fs2 with [] => true | _ => false end)) as E2.
-      { inversion FL; reflexivity. }
-      rewrite E2.
-      destruct (negb open && negb _); [constructor; apply blame_sim|].
-      destruct (negb (forallb (fun n => has_key n fs2) names)); [apply relR_err|].
+      rewrite E1. cbv zeta.
+      assert (forall (l1 l2 : list field), Forall2 FldR l1 l2 ->
+                (match l1 with [] => true | _ => false end) = (match l2 with [] => true | _ => false end)) as E2.
+      { intros l1 l2 HF. inversion HF; reflexivity. }
+      pose proof (E2 _ _ FL) as E3. unfold field in E3. rewrite E3. clear E3.
+      match goal with |- context [if ?b then _ else _] => destruct b; [apply relR_blame|] end.
+      destruct (negb (forallb (fun n => has_key n fs2) names)); [(apply relR_err; discriminate)|].
       constructor. apply RV_rec'. apply Forall2_app; [exact FL|].
       eapply Forall2_map2; [exact FC|]. intros f1 f2 [E F]. split; [exact E|].
       intros q1 q2 n S1 S2. cbn [fst snd] in *.
@@ -274,7 +337,619 @@ Section Rel.
       apply same_ctrs_snoc_inv in S2 as [q2' [b2' [-> S2]]]. cbn [snd].
       rewrite !tctrs_snoc, !eval_TCtr. apply IHc. now apply F.
     - (* CFun *)
-      inversion HV; subst; try (constructor; apply blame_sim).
+      inversion HV; subst; try (apply relR_blame).
       constructor. constructor. now constructor.
+  Qed.
+
+  (** ** Thunk-level congruences *)
+
+  Lemma relT_ctr : forall b1 b2 c t1 t2, RelT t1 t2 -> RelT (TCtr (b1, c) t1) (TCtr (b2, c) t2).
+  Proof. intros b1 b2 c t1 t2 H n. rewrite !eval_TCtr. apply apply_ctr_rel, H. Qed.
+
+  Lemma relT_ctrs : forall q1 q2, same_ctrs q1 q2 -> forall t1 t2, RelT t1 t2 -> RelT (tctrs q1 t1) (tctrs q2 t2).
+  Proof.
+    induction q1 as [|[b1 c1] q1 IH]; intros [|[b2 c2] q2] S t1 t2 H; try discriminate; auto.
+    unfold same_ctrs in S. cbn in S. injection S as -> S.
+    change (RelT (tctrs q1 (TCtr (b1, c2) t1)) (tctrs q2 (TCtr (b2, c2) t2))).
+    apply IH; auto. now apply relT_ctr.
+  Qed.
+
+  Lemma relT_val : forall r1 r2, RelC r1 r2 -> RelT (TVal r1) (TVal r2).
+  Proof. intros r1 r2 H n. now rewrite !eval_TVal. Qed.
+
+  Lemma atom_rel : forall a, a <> AProbe -> RelT (thunk_of_atom a) (thunk_of_atom a).
+  Proof.
+    intros [] N; try congruence; cbn; apply relT_val; try (apply relR_err; discriminate); constructor; constructor.
+  Qed.
+
+  Lemma Forall2_forall : forall {A B} (R : nat -> A -> B -> Prop) l1 l2,
+    (forall n, Forall2 (R n) l1 l2) -> Forall2 (fun x y => forall n, R n x y) l1 l2.
+  Proof.
+    induction l1 as [|x l1 IH]; intros l2 H.
+    - specialize (H 0). inversion H. constructor.
+    - destruct l2 as [|y l2]; [specialize (H 0); inversion H|].
+      constructor.
+      + intros n. specialize (H n). now inversion H.
+      + apply IH. intros n. specialize (H n). now inversion H.
+  Qed.
+
+  Lemma Forall2_forall_inv : forall {A B} (R : nat -> A -> B -> Prop) l1 l2,
+    Forall2 (fun x y => forall n, R n x y) l1 l2 -> forall n, Forall2 (R n) l1 l2.
+  Proof. induction 1; intros; constructor; auto. Qed.
+
+  Lemma ArrR_elems : forall es1 p1 es2 p2 q1 q2, ArrR es1 p1 es2 p2 ->
+    same_ctrs q1 p1 -> same_ctrs q2 p2 -> Forall2 RelT (arr_elems es1 q1) (arr_elems es2 q2).
+  Proof.
+    intros. unfold RelT. apply (Forall2_forall (fun n t1 t2 => RelC (eval n t1) (eval n t2))).
+    intros n. now apply H.
+  Qed.
+
+  Lemma ArrR_of_elems : forall l1 l2, Forall2 RelT l1 l2 -> ArrR l1 [] l2 [].
+  Proof.
+    intros l1 l2 H q1 q2 n S1 S2. apply same_ctrs_nil in S1, S2. subst.
+    rewrite !arr_elems_nil_pend.
+    now apply (Forall2_forall_inv (fun n t1 t2 => RelC (eval n t1) (eval n t2))).
+  Qed.
+
+  Lemma ArrR_length : forall es1 p1 es2 p2, ArrR es1 p1 es2 p2 -> List.length es1 = List.length es2.
+  Proof.
+    intros. pose proof (ArrR_elems _ _ _ _ p1 p2 H (same_ctrs_refl _) (same_ctrs_refl _)) as F.
+    apply Forall2_length' in F. unfold arr_elems in F. now rewrite !map_length in F.
+  Qed.
+
+  Lemma lit_rel : forall l, lit_ok l -> RelT (thunk_of_lit l) (thunk_of_lit l).
+  Proof.
+    intros [xs c|fs c] OK; cbn in *.
+    - assert (RelT (TVal (Ok (VArr (map thunk_of_atom xs) []))) (TVal (Ok (VArr (map thunk_of_atom xs) [])))) as H.
+      { apply relT_val. constructor. apply RV_arr'. apply ArrR_of_elems.
+        induction xs as [|x xs IH]; cbn; constructor.
+        - apply atom_rel. intros ->. apply OK. now left.
+        - apply IH. intros C. apply OK. now right. }
+      destruct c; auto. now apply relT_ctr.
+    - assert (RelT (TVal (Ok (VRec (map (fun '(k, a) => (k, (thunk_of_atom a, []))) fs))))
+                (TVal (Ok (VRec (map (fun '(k, a) => (k, (thunk_of_atom a, []))) fs))))) as H.
+      { apply relT_val. constructor. apply RV_rec'.
+        induction fs as [|[k a] fs IH]; cbn in *; constructor.
+        - split; [reflexivity|].
+          intros q1 q2 n S1 S2. cbn [fst snd] in *. apply same_ctrs_nil in S1, S2. subst. apply atom_rel.
+          intros ->. apply OK. now left.
+        - apply IH. intros C. apply OK. now right. }
+      destruct c; auto. now apply relT_ctr.
+  Qed.
+
+  (** ** Scalars *)
+
+  Lemma as_num_rel : forall v1 v2, RelV v1 v2 -> RelR eq (as_num v1) (as_num v2).
+  Proof. intros v1 v2 H. inversion H; subst; cbn; try (apply relR_err; discriminate). now constructor. Qed.
+
+  Lemma as_bool_rel : forall v1 v2, RelV v1 v2 -> RelR eq (as_bool v1) (as_bool v2).
+  Proof. intros v1 v2 H. inversion H; subst; cbn; try (apply relR_err; discriminate). now constructor. Qed.
+
+  Definition ArrR' (x y : list thunk * list pc) : Prop := ArrR (fst x) (snd x) (fst y) (snd y).
+
+  Lemma as_arr_rel : forall e, e <> EProbe -> forall v1 v2, RelV v1 v2 -> RelR ArrR' (as_arr e v1) (as_arr e v2).
+  Proof. intros e N v1 v2 H. inversion H; subst; cbn; try (apply relR_err; assumption). constructor. exact H0. Qed.
+
+  Lemma as_rec_rel : forall e, e <> EProbe -> forall v1 v2, RelV v1 v2 -> RelR (Forall2 FldR) (as_rec e v1) (as_rec e v2).
+  Proof. intros e N v1 v2 H. inversion H; subst; cbn; try (apply relR_err; assumption). constructor. exact H0. Qed.
+
+  Lemma fun2_rel : forall f a1 a2 b1 b2,
+    RelC a1 a2 -> RelC b1 b2 -> RelC (fun2_sem f a1 b1) (fun2_sem f a2 b2).
+  Proof.
+    intros f a1 a2 b1 b2 HA HB. destruct f; cbn; auto.
+    - eapply relR_bind; [exact HA|]. intros va1 va2 Hva.
+      eapply relR_bind; [apply as_num_rel, Hva|]. intros x ? <-.
+      eapply relR_bind; [exact HB|]. intros vb1 vb2 Hvb.
+      eapply relR_bind; [apply as_num_rel, Hvb|]. intros y ? <-. constructor. constructor.
+    - eapply relR_bind; [exact HA|]. intros va1 va2 Hva.
+      eapply relR_bind; [apply as_num_rel, Hva|]. intros x ? <-. constructor. constructor.
+    - eapply relR_bind; [exact HB|]. intros vb1 vb2 Hvb.
+      eapply relR_bind; [apply as_num_rel, Hvb|]. intros y ? <-. constructor. constructor.
+    - constructor. constructor.
+  Qed.
+
+  Lemma relT_app2 : forall f a1 a2 b1 b2, RelT a1 a2 -> RelT b1 b2 -> RelT (TApp2 f a1 b1) (TApp2 f a2 b2).
+  Proof.
+    intros f a1 a2 b1 b2 HA HB n. rewrite !eval_TApp2. destruct n; [(apply relR_err; discriminate)|].
+    apply fun2_rel; auto.
+  Qed.
+
+  (** ** Force *)
+
+  Lemma force_list_rel : forall fo l1 l2,
+    Forall2 (fun t1 t2 => RelR eq (fo t1) (fo t2)) l1 l2 ->
+    RelR eq (force_list fo l1) (force_list fo l2).
+  Proof.
+    induction 1 as [|t1 t2 l1 l2 H _ IH]; cbn; [now constructor|].
+    eapply relR_bind; [exact IH|]. intros xs ? <-.
+    eapply relR_bind; [exact H|]. intros x ? <-. now constructor.
+  Qed.
+
+  Lemma FldR_thunks : forall fs1 fs2, Forall2 FldR fs1 fs2 -> Forall2 RelT (map fld_thunk fs1) (map fld_thunk fs2).
+  Proof.
+    intros. eapply Forall2_map2; [exact H|]. intros f1 f2 [_ F] n. apply F; apply same_ctrs_refl.
+  Qed.
+
+  Lemma force_rel : forall n t1 t2, RelT t1 t2 -> RelR eq (force n t1) (force n t2).
+  Proof.
+    induction n as [|m IH]; intros t1 t2 H; [(apply relR_err; discriminate)|].
+    rewrite !force_S. eapply relR_bind; [apply (H m)|]. intros v1 v2 HV.
+    inversion HV; subst; cbn; try (now constructor); try (apply relR_err; discriminate).
+    - eapply relR_bind with (RA := eq).
+      + apply force_list_rel.
+        pose proof (ArrR_elems _ _ _ _ p1 p2 H0 (same_ctrs_refl _) (same_ctrs_refl _)) as F.
+        clear -F IH. induction F; constructor; auto.
+      + intros xs ? <-. now constructor.
+    - eapply relR_bind with (RA := eq).
+      + apply force_list_rel. pose proof (FldR_thunks _ _ H0) as F.
+        clear -F IH. induction F; constructor; auto.
+      + intros xs ? <-. rewrite (FldR_keys _ _ H0). now constructor.
+  Qed.
+
+  (** ** Equality *)
+
+  Definition PairR (x y : thunk * thunk) : Prop := RelT (fst x) (fst y) /\ RelT (snd x) (snd y).
+
+  Lemma eq_pairs_rel : forall ev,
+    (forall a1 a2 b1 b2, RelT a1 a2 -> RelT b1 b2 -> RelC (ev (TEq a1 b1)) (ev (TEq a2 b2))) ->
+    forall ps1 ps2, Forall2 PairR ps1 ps2 -> RelC (eq_pairs ev ps1) (eq_pairs ev ps2).
+  Proof.
+    intros ev HE. induction 1 as [|[x1 y1] [x2 y2] l1 l2 [Hx Hy] _ IH]; cbn.
+    - constructor. constructor.
+    - unfold ev_bool. eapply relR_bind with (RA := eq).
+      + eapply relR_bind; [apply HE; eauto|]. intros. now apply as_bool_rel.
+      + intros b ? <-. destruct b; auto. constructor. constructor.
+  Qed.
+
+  Lemma Forall2_combine : forall {A B} (R1 : A -> A -> Prop) (R2 : B -> B -> Prop) l1 l2 m1 m2,
+    Forall2 R1 l1 l2 -> Forall2 R2 m1 m2 ->
+    Forall2 (fun x y => R1 (fst x) (fst y) /\ R2 (snd x) (snd y)) (combine l1 m1) (combine l2 m2).
+  Proof.
+    intros A B R1 R2 l1 l2 m1 m2 H. revert m1 m2. induction H; intros m1 m2 HM; cbn; [constructor|].
+    destruct HM; constructor; auto.
+  Qed.
+
+  Lemma Forall2_rev : forall {A B} (R : A -> B -> Prop) l1 l2, Forall2 R l1 l2 -> Forall2 R (rev l1) (rev l2).
+  Proof. induction 1; cbn; [constructor|]. apply Forall2_app; auto. Qed.
+
+  Lemma eq_center_rel : forall a1 a2 b1 b2, Forall2 FldR a1 a2 -> Forall2 FldR b1 b2 ->
+    Forall2 PairR (eq_center a1 b1) (eq_center a2 b2).
+  Proof.
+    intros a1 a2 b1 b2 HA HB. unfold eq_center.
+    rewrite (Forall2_length' _ _ _ HA), (Forall2_length' _ _ _ HB).
+    destruct (Nat.ltb (List.length a2) (List.length b2)).
+    - clear -HA HB. induction HB as [|f1 f2 l1 l2 [E F] _ IH]; cbn; [constructor|].
+      rewrite E. pose proof (FldR_lookup _ _ (fst f2) HA) as L.
+      destruct (lookup (fst f2) a1) as [[x1 p1]|], (lookup (fst f2) a2) as [[x2 p2]|]; try contradiction; cbn; auto.
+      constructor; auto. split; cbn; intros n.
+      + apply (L p1 p2 n); apply same_ctrs_refl.
+      + apply F; apply same_ctrs_refl.
+    - clear -HA HB. induction HA as [|f1 f2 l1 l2 [E F] _ IH]; cbn; [constructor|].
+      rewrite E. pose proof (FldR_lookup _ _ (fst f2) HB) as L.
+      destruct (lookup (fst f2) b1) as [[x1 p1]|], (lookup (fst f2) b2) as [[x2 p2]|]; try contradiction; cbn; auto.
+      constructor; auto. split; cbn; intros n.
+      + apply F; apply same_ctrs_refl.
+      + apply (L p1 p2 n); apply same_ctrs_refl.
+  Qed.
+
+  Lemma forallb_keys : forall (fs1 fs2 : list field) (g1 g2 : list field),
+    map fst fs1 = map fst fs2 -> map fst g1 = map fst g2 ->
+    forallb (fun f : field => has_key (fst f) g1) fs1 = forallb (fun f : field => has_key (fst f) g2) fs2.
+  Proof.
+    induction fs1 as [|f1 l1 IH]; intros [|f2 l2] g1 g2 K G; try discriminate; auto.
+    cbn in *. injection K as E K. rewrite E. rewrite (has_key_keys _ g1 g2 G). f_equal. auto.
+  Qed.
+
+  Lemma eq_whnf_rel : forall ev,
+    (forall a1 a2 b1 b2, RelT a1 a2 -> RelT b1 b2 -> RelC (ev (TEq a1 b1)) (ev (TEq a2 b2))) ->
+    forall v1 v2 w1 w2, RelV v1 v2 -> RelV w1 w2 -> RelC (eq_whnf ev v1 w1) (eq_whnf ev v2 w2).
+  Proof.
+    intros ev HE v1 v2 w1 w2 HV HW.
+    inversion HV; subst; inversion HW; subst; cbn [eq_whnf]; try (apply relR_err; discriminate);
+      try solve [constructor; constructor].
+    - (* arrays *)
+      rewrite (ArrR_length _ _ _ _ H), (ArrR_length _ _ _ _ H0).
+      destruct (Nat.eqb (List.length es2) (List.length es3)); [|constructor; constructor].
+      apply eq_pairs_rel; auto. apply Forall2_rev.
+      apply (Forall2_combine RelT RelT); eapply ArrR_elems; eauto; apply same_ctrs_refl.
+    - (* records *)
+      pose proof (FldR_keys _ _ H) as K1. pose proof (FldR_keys _ _ H0) as K2.
+      assert (same_keys fs1 fs0 = same_keys fs2 fs3) as ->.
+      { unfold same_keys. f_equal; apply forallb_keys; auto. }
+      destruct (negb _); [constructor; constructor|].
+      pose proof (eq_center_rel _ _ _ _ H H0) as C.
+      destruct C as [|p1 p2 l1 l2 HP C]; [constructor; constructor|].
+      apply eq_pairs_rel; auto. constructor; auto. now apply Forall2_rev.
+  Qed.
+
+  Lemma relT_eq : forall n a1 a2 b1 b2, RelT a1 a2 -> RelT b1 b2 -> RelC (eval n (TEq a1 b1)) (eval n (TEq a2 b2)).
+  Proof.
+    induction n as [|m IH]; intros; rewrite !eval_TEq; [(apply relR_err; discriminate)|].
+    unfold eq_sem. eapply relR_bind; [apply (H m)|]. intros v1 v2 HV.
+    eapply relR_bind; [apply (H0 m)|]. intros w1 w2 HW.
+    apply eq_whnf_rel; auto.
+  Qed.
+
+  (** ** Scalar observers and function application *)
+
+  Lemma eq_whnf_num_rel : forall ev v1 v2 z, RelV v1 v2 -> RelC (eq_whnf ev v1 (VNum z)) (eq_whnf ev v2 (VNum z)).
+  Proof. intros ev v1 v2 z H. inversion H; subst; cbn; constructor; constructor. Qed.
+
+  Lemma scalar_cong : forall o, fn_scalar o -> forall t1 t2, RelT t1 t2 -> RelT (TObs o t1) (TObs o t2).
+  Proof.
+    intros o Ho t1 t2 H n. rewrite !eval_TObs. destruct n as [|m]; [(apply relR_err; discriminate)|].
+    destruct Ho; cbn [obs_sem]; try (constructor; constructor); try apply (H m).
+    - eapply relR_bind; [apply (H m)|]. intros v1 v2 HV.
+      eapply relR_bind; [apply as_num_rel, HV|]. intros x ? <-. constructor. constructor.
+    - eapply relR_bind; [apply (H m)|]. intros v1 v2 HV.
+      eapply relR_bind; [apply as_num_rel, HV|]. intros x ? <-. constructor. constructor.
+    - eapply relR_bind; [apply (H m)|]. intros v1 v2 HV. now apply eq_whnf_num_rel.
+  Qed.
+
+  Lemma app_rel : forall f1 f2, fn_sim f1 f2 -> forall m a1 a2, RelT a1 a2 ->
+    RelC (app (eval m) f1 a1) (app (eval m) f2 a2).
+  Proof.
+    induction 1; intros m a1 a2 HA; cbn [app].
+    - now apply scalar_cong.
+    - apply apply_ctr_rel. apply IHfn_sim. now apply relT_ctr.
+  Qed.
+
+  (** ** Array primitives and combinators *)
+
+  Lemma Forall2_nth_error : forall {A B} (R : A -> B -> Prop) l1 l2 i, Forall2 R l1 l2 ->
+    match nth_error l1 i, nth_error l2 i with
+    | Some x, Some y => R x y
+    | None, None => True
+    | _, _ => False
+    end.
+  Proof.
+    intros A B R l1 l2 i H. revert i. induction H; intros [|i]; cbn; auto. apply IHForall2.
+  Qed.
+
+  Lemma Forall2_firstn : forall {A B} (R : A -> B -> Prop) n l1 l2, Forall2 R l1 l2 -> Forall2 R (firstn n l1) (firstn n l2).
+  Proof. induction n; intros; cbn; [constructor|]. destruct H; constructor; auto. Qed.
+
+  Lemma Forall2_skipn : forall {A B} (R : A -> B -> Prop) n l1 l2, Forall2 R l1 l2 -> Forall2 R (skipn n l1) (skipn n l2).
+  Proof. induction n; intros; cbn; auto. destruct H; [constructor|]; auto. Qed.
+
+  Lemma at_rel : forall m es1 p1 es2 p2 i, ArrR es1 p1 es2 p2 ->
+    RelC (bind (prim_array_at es1 p1 i) (eval m)) (bind (prim_array_at es2 p2 i) (eval m)).
+  Proof.
+    intros m es1 p1 es2 p2 i H. rewrite !at_tracked. cbn [view_arr].
+    pose proof (Forall2_nth_error _ _ _ i (ArrR_elems _ _ _ _ p1 p2 H (same_ctrs_refl _) (same_ctrs_refl _))) as N.
+    destruct (nth_error (arr_elems es1 p1) i), (nth_error (arr_elems es2 p2) i); try contradiction; cbn.
+    - apply N.
+    - (apply relR_err; discriminate).
+  Qed.
+
+  Lemma concat_is_arr : forall es1 p1 es2 p2, exists es p, prim_array_concat es1 p1 es2 p2 = VArr es p.
+  Proof. intros. unfold prim_array_concat. repeat destruct (_ : bool); eexists _, _; reflexivity. Qed.
+
+  Lemma arr_elems_nil : forall q, arr_elems [] q = [].
+  Proof. reflexivity. Qed.
+
+  Lemma same_ctrs_trans : forall a b c, same_ctrs a b -> same_ctrs b c -> same_ctrs a c.
+  Proof. unfold same_ctrs. congruence. Qed.
+
+  Lemma concat_view : forall es1 p1 es2 p2 es p, prim_array_concat es1 p1 es2 p2 = VArr es p ->
+    forall q, same_ctrs q p -> exists qa qb, same_ctrs qa p1 /\ same_ctrs qb p2 /\
+      arr_elems es q = arr_elems es1 qa ++ arr_elems es2 qb.
+  Proof.
+    intros es1 p1 es2 p2 es p H q S. unfold prim_array_concat in H.
+    destruct (is_inline_empty es1 p1) eqn:E1.
+    { destruct es1, p1; try discriminate. injection H as <- <-. exists [], q. repeat split; auto. }
+    destruct (is_inline_empty es2 p2) eqn:E2.
+    { destruct es2, p2; try discriminate. injection H as <- <-. exists q, []. repeat split; auto.
+      now rewrite arr_elems_nil, app_nil_r. }
+    destruct (pend_eqb p1 p2) eqn:E.
+    - injection H as <- <-. exists q, q. repeat split; auto.
+      + eapply same_ctrs_trans; [exact S|]. now apply pend_eqb_contracts.
+      + apply arr_elems_app.
+    - injection H as <- <-. apply same_ctrs_nil in S. subst. exists p1, p2. repeat split; try reflexivity.
+      apply arr_elems_nil_pend.
+  Qed.
+
+  Lemma concat_rel : forall a1 pa1 a2 pa2 b1 pb1 b2 pb2, ArrR a1 pa1 a2 pa2 -> ArrR b1 pb1 b2 pb2 ->
+    RelV (prim_array_concat a1 pa1 b1 pb1) (prim_array_concat a2 pa2 b2 pb2).
+  Proof.
+    intros a1 pa1 a2 pa2 b1 pb1 b2 pb2 HA HB.
+    destruct (concat_is_arr a1 pa1 b1 pb1) as [e1 [q1 E1]], (concat_is_arr a2 pa2 b2 pb2) as [e2 [q2 E2]].
+    rewrite E1, E2. apply RV_arr'. intros r1 r2 n S1 S2.
+    destruct (concat_view _ _ _ _ _ _ E1 r1 S1) as [x1 [y1 [Sx1 [Sy1 ->]]]].
+    destruct (concat_view _ _ _ _ _ _ E2 r2 S2) as [x2 [y2 [Sx2 [Sy2 ->]]]].
+    apply Forall2_app; [apply HA | apply HB]; auto.
+  Qed.
+
+  Lemma slice_rel : forall s e es1 p1 es2 p2, ArrR es1 p1 es2 p2 ->
+    RelC (prim_array_slice s e es1 p1) (prim_array_slice s e es2 p2).
+  Proof.
+    intros s e es1 p1 es2 p2 H. unfold prim_array_slice. rewrite (ArrR_length _ _ _ _ H).
+    destruct (_ || _); [(apply relR_err; discriminate)|]. constructor. apply RV_arr'. intros q1 q2 n S1 S2.
+    unfold arr_elems. rewrite <- !firstn_map, <- !skipn_map.
+    apply Forall2_firstn, Forall2_skipn. now apply H.
+  Qed.
+
+  Section Combinators.
+    Variable m : nat.
+    Let ev := eval m.
+
+    Lemma foldl_rel : forall f xs1 xs2, Forall2 RelT xs1 xs2 -> forall acc1 acc2, RelV acc1 acc2 ->
+      RelC (foldl_go ev f xs1 acc1) (foldl_go ev f xs2 acc2).
+    Proof.
+      induction 1 as [|x1 x2 l1 l2 H _ IH]; intros acc1 acc2 HA; cbn; [now constructor|].
+      eapply relR_bind; [|exact IH]. apply fun2_rel; [now constructor | apply H].
+    Qed.
+
+    Lemma foldr_rel : forall f init xs1 xs2, Forall2 RelT xs1 xs2 ->
+      RelC (foldr_go ev f xs1 (VNum init)) (foldr_go ev f xs2 (VNum init)).
+    Proof.
+      induction 1 as [|x1 x2 l1 l2 H _ IH]; cbn; [constructor; constructor|].
+      apply fun2_rel; [apply H | exact IH].
+    Qed.
+
+    Variable q : obs.
+    Hypothesis q_cong : forall t1 t2, RelT t1 t2 -> RelT (TObs q t1) (TObs q t2).
+
+    Lemma ev_bool_rel : forall x1 x2, RelT x1 x2 -> RelR eq (ev_bool ev (TObs q x1)) (ev_bool ev (TObs q x2)).
+    Proof.
+      intros. unfold ev_bool. eapply relR_bind; [apply (q_cong _ _ H m)|]. intros. now apply as_bool_rel.
+    Qed.
+
+    Lemma any_rel : forall xs1 xs2, Forall2 RelT xs1 xs2 -> RelC (any_go ev q xs1) (any_go ev q xs2).
+    Proof.
+      induction 1 as [|x1 x2 l1 l2 H _ IH]; cbn; [constructor; constructor|].
+      eapply relR_bind; [now apply ev_bool_rel|]. intros b ? <-. destruct b; auto. constructor. constructor.
+    Qed.
+
+    Lemma all_rel : forall xs1 xs2, Forall2 RelT xs1 xs2 -> RelC (all_go ev q xs1) (all_go ev q xs2).
+    Proof.
+      induction 1 as [|x1 x2 l1 l2 H _ IH]; cbn; [constructor; constructor|].
+      eapply relR_bind; [now apply ev_bool_rel|]. intros b ? <-. destruct b; auto. constructor. constructor.
+    Qed.
+
+    Lemma filter_rel : forall xs1 xs2, Forall2 RelT xs1 xs2 -> forall acc1 acc2, Forall2 RelT acc1 acc2 ->
+      RelC (filter_go ev q xs1 acc1) (filter_go ev q xs2 acc2).
+    Proof.
+      induction 1 as [|x1 x2 l1 l2 H _ IH]; intros acc1 acc2 HA; cbn.
+      - constructor. apply RV_arr'. now apply ArrR_of_elems.
+      - eapply relR_bind; [now apply ev_bool_rel|]. intros b ? <-. apply IH.
+        destruct b; auto. apply Forall2_app; auto.
+    Qed.
+  End Combinators.
+
+  Lemma flatten_rel : forall m rows1 rows2, Forall2 RelT rows1 rows2 ->
+    forall a1 pa1 a2 pa2, ArrR a1 pa1 a2 pa2 ->
+    RelC (flatten_go (eval m) rows1 a1 pa1) (flatten_go (eval m) rows2 a2 pa2).
+  Proof.
+    intros m. induction 1 as [|r1 r2 l1 l2 H _ IH]; intros a1 pa1 a2 pa2 HA; cbn.
+    - constructor. now apply RV_arr'.
+    - eapply relR_bind; [apply (H m)|]. intros v1 v2 HV.
+      eapply relR_bind; [apply (as_arr_rel ETypeErr); [discriminate | exact HV]|]. intros [es1 p1] [es2 p2] HR.
+      pose proof (concat_rel _ _ _ _ _ _ _ _ HA HR) as C.
+      destruct (concat_is_arr a1 pa1 es1 p1) as [e1 [q1 E1]], (concat_is_arr a2 pa2 es2 p2) as [e2 [q2 E2]].
+      cbn [fst snd] in *. rewrite E1, E2 in *. apply IH. inversion C; subst. exact H1.
+  Qed.
+
+  (** ** Record primitives *)
+
+  Lemma insert_sorted_rel : forall f1 f2 l1 l2, FldR f1 f2 -> Forall2 FldR l1 l2 ->
+    Forall2 FldR (insert_sorted f1 l1) (insert_sorted f2 l2).
+  Proof.
+    intros f1 f2 l1 l2 HF H. induction H as [|g1 g2 l1 l2 HG HL IH]; cbn; [constructor; auto|].
+    pose proof HF as [E F]. pose proof HG as [E' F']. rewrite E, E'.
+    destruct (String.ltb (fst f2) (fst g2)).
+    - repeat (constructor; auto).
+    - constructor; auto.
+  Qed.
+
+  Lemma sort_fields_rel : forall l1 l2, Forall2 FldR l1 l2 -> Forall2 FldR (sort_fields l1) (sort_fields l2).
+  Proof.
+    intros l1 l2 H. unfold sort_fields.
+    assert (forall a1 a2, Forall2 FldR a1 a2 ->
+              Forall2 FldR (fold_left (fun acc x => insert_sorted x acc) l1 a1)
+                (fold_left (fun acc x => insert_sorted x acc) l2 a2)) as G.
+    { induction H; intros; cbn; auto. apply IHForall2. now apply insert_sorted_rel. }
+    apply G. constructor.
+  Qed.
+
+  Lemma Forall2_last : forall l1 l2 (d1 d2 : field), Forall2 FldR l1 l2 -> FldR d1 d2 -> FldR (last l1 d1) (last l2 d2).
+  Proof.
+    induction 1 as [|x y l1 l2 H HL IH]; intros; [cbn; auto|].
+    destruct HL as [|x' y' l1' l2' H' HL']; [cbn; auto|].
+    change (FldR (last (x' :: l1') d1) (last (y' :: l2') d2)). now apply IH.
+  Qed.
+
+  Lemma Forall2_removelast : forall (l1 l2 : list field), Forall2 FldR l1 l2 -> Forall2 FldR (removelast l1) (removelast l2).
+  Proof.
+    induction 1 as [|x y l1 l2 H HL IH]; [constructor|].
+    destruct HL as [|x' y' l1' l2' H' HL']; [cbn; constructor|].
+    change (Forall2 FldR (x :: removelast (x' :: l1')) (y :: removelast (y' :: l2'))). constructor; auto.
+  Qed.
+
+  Lemma replace_key_rel : forall k (x1 x2 : field) l1 l2, FldR x1 x2 -> Forall2 FldR l1 l2 ->
+    Forall2 FldR (replace_key k x1 l1) (replace_key k x2 l2).
+  Proof.
+    intros k x1 x2 l1 l2 HX H. induction H as [|[k1 d1] [k2 d2] l1 l2 [E F] HL IH]; cbn; [constructor|].
+    cbn in E. subst. destruct (String.eqb k k2); constructor; auto. split; auto.
+  Qed.
+
+  Lemma swap_remove_rel : forall k l1 l2, Forall2 FldR l1 l2 -> Forall2 FldR (swap_remove k l1) (swap_remove k l2).
+  Proof.
+    intros k l1 l2 H. unfold swap_remove. destruct H as [|d1 d2 l1 l2 HD HL]; [constructor|].
+    assert (Forall2 FldR (d1 :: l1) (d2 :: l2)) as H by (constructor; auto).
+    cbv beta iota zeta.
+    rewrite (has_key_keys k _ _ (FldR_keys _ _ H)).
+    destruct (has_key k (d2 :: l2)); auto.
+    pose proof (Forall2_last _ _ _ _ H HD) as [EL FL]. unfold field in *. rewrite EL.
+    destruct (String.eqb k (fst (last (d2 :: l2) d2))).
+    - now apply Forall2_removelast.
+    - apply replace_key_rel; [split; auto|]. now apply Forall2_removelast.
+  Qed.
+
+  Lemma strs_rel : forall ks : list string,
+    RelV (VArr (map (fun k => TVal (Ok (VStr k))) ks) []) (VArr (map (fun k => TVal (Ok (VStr k))) ks) []).
+  Proof.
+    intros. apply RV_arr', ArrR_of_elems. induction ks; cbn; constructor; auto.
+    apply relT_val. constructor. constructor.
+  Qed.
+
+  (** Data read back from an exported tree is related to itself. *)
+  Lemma tree_rel : forall t, RelV (tree_to_lval t) (tree_to_lval t).
+  Proof.
+    fix IH 1. intros [z|s|b|xs|fs]; cbn.
+    - constructor.
+    - constructor.
+    - constructor.
+    - apply RV_arr', ArrR_of_elems.
+      revert xs. fix IHxs 1. intros [|x xs]; cbn; constructor.
+      + apply relT_val. constructor. apply IH.
+      + apply IHxs.
+    - apply RV_rec'.
+      revert fs. fix IHfs 1. intros [|[k x] fs]; cbn; constructor.
+      + split; [reflexivity|]. intros q1 q2 n S1 S2. cbn [fst snd] in *.
+        apply same_ctrs_nil in S1, S2. subst. apply relT_val. constructor. apply IH.
+      + apply IHfs.
+  Qed.
+
+  (** ** The fundamental lemma: supported observers preserve the relation *)
+
+  Lemma access_cong : forall k t1 t2, RelT t1 t2 -> RelT (TObs (OAccess k) t1) (TObs (OAccess k) t2).
+  Proof.
+    intros k t1 t2 H n. rewrite !eval_TObs. destruct n as [|m]; [(apply relR_err; discriminate)|]. cbn [obs_sem].
+    eapply relR_bind; [apply (H m)|]. intros v1 v2 HV.
+    eapply relR_bind; [apply (as_rec_rel ETypeErr); [discriminate | exact HV]|]. intros fs1 fs2 HF.
+    unfold prim_record_access. pose proof (FldR_lookup _ _ k HF) as L.
+    destruct (lookup k fs1) as [[x1 p1]|], (lookup k fs2) as [[x2 p2]|]; try contradiction; cbn.
+    - apply (L p1 p2 m); apply same_ctrs_refl.
+    - (apply relR_err; discriminate).
+  Qed.
+
+  Ltac arr_arg H m e :=
+    eapply relR_bind; [apply (H m)|]; intros ?v1 ?v2 ?HV;
+    eapply relR_bind; [apply (as_arr_rel e); [discriminate | eassumption]|]; intros [?es1 ?p1] [?es2 ?p2] ?HA;
+    unfold ArrR' in *; cbn [fst snd] in *.
+
+  Ltac rec_arg H m e :=
+    eapply relR_bind; [apply (H m)|]; intros ?v1 ?v2 ?HV;
+    eapply relR_bind; [apply (as_rec_rel e); [discriminate | eassumption]|]; intros ?fs1 ?fs2 ?HF.
+
+  Theorem obs_cong : forall o, supported o -> forall t1 t2, RelT t1 t2 -> RelT (TObs o t1) (TObs o t2).
+  Proof.
+    induction 1; intros t1 t2 HT;
+      try (apply scalar_cong; [constructor | exact HT]);
+      intros n; rewrite !eval_TObs; (destruct n as [|m]; [(apply relR_err; discriminate)|]); cbn [obs_sem].
+    - (* comp *)
+      pose proof (IHsupported2 _ _ (IHsupported1 _ _ HT) (S m)) as G. now rewrite !eval_TObs in G.
+    - (* atp *) arr_arg HT m ETypeErr. now apply at_rel.
+    - (* at *) arr_arg HT m EBlameNeg. rewrite (ArrR_length _ _ _ _ HA).
+      destruct (Nat.ltb i (List.length es2)); [now apply at_rel | (apply relR_err; discriminate)].
+    - (* first *) arr_arg HT m EBlameNeg. pose proof (ArrR_length _ _ _ _ HA) as L.
+      destruct es1, es2; try discriminate; [(apply relR_err; discriminate) | now apply at_rel].
+    - (* last *) arr_arg HT m EBlameNeg. pose proof (ArrR_length _ _ _ _ HA) as L.
+      destruct es1, es2; try discriminate; [(apply relR_err; discriminate)|].
+      unfold prim_array_length. rewrite L. now apply at_rel.
+    - (* length *) arr_arg HT m EBlameNeg. unfold prim_array_length. rewrite (ArrR_length _ _ _ _ HA).
+      constructor. constructor.
+    - (* map *) arr_arg HT m EBlameNeg. constructor. apply RV_arr', ArrR_of_elems.
+      pose proof (map_tracked f es1 p1) as M1. pose proof (map_tracked f es2 p2) as M2.
+      unfold prim_array_map in *. cbn [view_arr] in M1, M2. rewrite arr_elems_nil_pend in M1, M2.
+      rewrite M1, M2. eapply Forall2_map2; [eapply ArrR_elems; eauto; apply same_ctrs_refl|].
+      intros x y Hxy. now apply IHsupported.
+    - (* concatr *) arr_arg HT m ETypeErr.
+      eapply relR_bind; [apply (lit_rel l H m)|]. intros w1 w2 HW.
+      eapply relR_bind; [apply (as_arr_rel ETypeErr); [discriminate | exact HW]|]. intros [a1 q1] [a2 q2] HB.
+      constructor. now apply concat_rel.
+    - (* concatl *)
+      eapply relR_bind; [apply (lit_rel l H m)|]. intros w1 w2 HW.
+      eapply relR_bind; [apply (as_arr_rel ETypeErr); [discriminate | exact HW]|]. intros [a1 q1] [a2 q2] HB.
+      arr_arg HT m ETypeErr. constructor. now apply concat_rel.
+    - (* slice *) arr_arg HT m EBlameNeg.
+      pose proof (slice_rel s e _ _ _ _ HA) as S. unfold prim_array_slice in *.
+      rewrite (ArrR_length _ _ _ _ HA) in *.
+      match type of S with context [if ?b then _ else _] => destruct b end; [(apply relR_err; discriminate) | exact S].
+    - (* slicep *) arr_arg HT m ETypeErr. now apply slice_rel.
+    - (* foldl *) arr_arg HT m EBlameNeg. apply foldl_rel; [|constructor].
+      eapply ArrR_elems; eauto; apply same_ctrs_refl.
+    - (* foldr *) arr_arg HT m EBlameNeg. apply foldr_rel. eapply ArrR_elems; eauto; apply same_ctrs_refl.
+    - (* filter *) arr_arg HT m EBlameNeg.
+      apply filter_rel; [exact IHsupported | eapply ArrR_elems; eauto; apply same_ctrs_refl | constructor].
+    - (* any *) arr_arg HT m EBlameNeg.
+      apply any_rel; [exact IHsupported | eapply ArrR_elems; eauto; apply same_ctrs_refl].
+    - (* all *) arr_arg HT m EBlameNeg.
+      apply all_rel; [exact IHsupported | eapply ArrR_elems; eauto; apply same_ctrs_refl].
+    - (* elem *) arr_arg HT m EBlameNeg.
+      apply any_rel; [intros; apply scalar_cong; [constructor | assumption]
+                     | eapply ArrR_elems; eauto; apply same_ctrs_refl].
+    - (* reverse *) arr_arg HT m EBlameNeg. constructor. apply RV_arr', ArrR_of_elems, Forall2_rev.
+      eapply ArrR_elems; eauto; apply same_ctrs_refl.
+    - (* flatten *) arr_arg HT m EBlameNeg. apply flatten_rel.
+      + eapply ArrR_elems; eauto; apply same_ctrs_refl.
+      + apply ArrR_of_elems. constructor.
+    - (* seq *) apply (HT m).
+    - (* deepseq *) eapply relR_bind with (RA := eq); [now apply force_rel|]. intros. apply (HT m).
+    - (* serde *)
+      pose proof (force_rel m _ _ HT) as F. inversion F as [r2 HH E1 E2|e1 e2 NP HS E1 E2|a1 a2 HE E1 E2]; subst.
+      + constructor. now apply Hole_serde.
+      + destruct HS as [->|[B1 B2]].
+        * destruct e2; try (apply relR_err; discriminate). congruence.
+        * destruct e1, e2; try discriminate; (constructor; [discriminate | right; auto]).
+      + constructor. apply tree_rel.
+    - (* eqr *) pose proof (relT_eq (S m) _ _ _ _ HT (lit_rel l H)) as G. now rewrite !eval_TEq in G.
+    - (* eql *) pose proof (relT_eq (S m) _ _ _ _ (lit_rel l H) HT) as G. now rewrite !eval_TEq in G.
+    - (* ctr *) apply apply_ctr_rel. apply (HT m).
+    - (* access *) pose proof (access_cong k _ _ HT (S m)) as G. now rewrite !eval_TObs in G.
+    - (* get *) rec_arg HT m EBlameNeg.
+      unfold prim_record_access. pose proof (FldR_lookup _ _ k HF) as L.
+      destruct (lookup k fs1) as [[x1 p1]|], (lookup k fs2) as [[x2 p2]|]; try contradiction; cbn.
+      + apply (L p1 p2 m); apply same_ctrs_refl.
+      + (apply relR_err; discriminate).
+    - (* fields *) rec_arg HT m EBlameNeg. constructor.
+      rewrite (fields_names_only fs1 fs2 (FldR_keys _ _ HF)). unfold prim_record_fields.
+      rewrite <- (map_map fst (fun k => TVal (Ok (VStr k)))). apply strs_rel.
+    - (* values *) rec_arg HT m EBlameNeg. constructor. apply RV_arr', ArrR_of_elems.
+      apply FldR_thunks. now apply sort_fields_rel.
+    - (* recmap *) rec_arg HT m EBlameNeg. constructor. apply RV_rec'. unfold prim_record_map.
+      eapply Forall2_map2; [exact HF|]. intros f1 f2 [E F]. split; [exact E|].
+      intros q1 q2 n S1 S2. cbn [fst snd] in *. apply same_ctrs_nil in S1, S2. subst. cbn [tctrs fold_left].
+      rewrite E. apply relT_app2; [apply relT_val; constructor; constructor|].
+      intros n'. apply F; apply same_ctrs_refl.
+    - (* mapvalues *) rec_arg HT m EBlameNeg. constructor. apply RV_rec'. unfold prim_record_map.
+      eapply Forall2_map2; [exact HF|]. intros f1 f2 [E F]. split; [exact E|].
+      intros q1 q2 n S1 S2. cbn [fst snd] in *. apply same_ctrs_nil in S1, S2. subst. cbn [tctrs fold_left].
+      apply IHsupported. intros n'. apply F; apply same_ctrs_refl.
+    - (* freeze *) rec_arg HT m ETypeErr. constructor. apply RV_rec'. unfold prim_record_freeze.
+      eapply Forall2_map2; [exact HF|]. intros f1 f2 [E F]. split; [exact E|].
+      intros q1 q2 n S1 S2. cbn [fst snd] in *. apply same_ctrs_nil in S1, S2. subst. cbn [tctrs fold_left].
+      apply F; apply same_ctrs_refl.
+    - (* insert *) rec_arg HT m EBlameNeg.
+      assert (Forall2 FldR (prim_record_freeze fs1) (prim_record_freeze fs2)) as HF'.
+      { unfold prim_record_freeze. eapply Forall2_map2; [exact HF|]. intros f1 f2 [E F]. split; [exact E|].
+        intros q1 q2 n S1 S2. cbn [fst snd] in *. apply same_ctrs_nil in S1, S2. subst. cbn [tctrs fold_left].
+        apply F; apply same_ctrs_refl. }
+      unfold prim_record_insert. rewrite (has_key_keys k _ _ (FldR_keys _ _ HF')).
+      destruct (has_key k (prim_record_freeze fs2)); [(apply relR_err; discriminate)|].
+      constructor. apply RV_rec'. apply Forall2_app; auto. constructor; [|constructor].
+      split; [reflexivity|]. intros q1 q2 n S1 S2. cbn [fst snd] in *. apply same_ctrs_nil in S1, S2. subst.
+      apply relT_val. constructor. constructor.
+    - (* remove *) rec_arg HT m EBlameNeg.
+      assert (Forall2 FldR (prim_record_freeze fs1) (prim_record_freeze fs2)) as HF'.
+      { unfold prim_record_freeze. eapply Forall2_map2; [exact HF|]. intros f1 f2 [E F]. split; [exact E|].
+        intros q1 q2 n S1 S2. cbn [fst snd] in *. apply same_ctrs_nil in S1, S2. subst. cbn [tctrs fold_left].
+        apply F; apply same_ctrs_refl. }
+      unfold prim_record_remove. rewrite (has_key_keys k _ _ (FldR_keys _ _ HF')).
+      destruct (has_key k (prim_record_freeze fs2)); [|(apply relR_err; discriminate)].
+      constructor. apply RV_rec'. now apply swap_remove_rel.
+    - (* hasfield *) rec_arg HT m EBlameNeg. rewrite (has_key_keys k _ _ (FldR_keys _ _ HF)).
+      constructor. constructor.
+    - (* toarray *) rec_arg HT m EBlameNeg. constructor. apply RV_arr', ArrR_of_elems.
+      eapply Forall2_map2; [apply sort_fields_rel, HF|]. intros f1 f2 [E F] n. rewrite !eval_TRecLit.
+      constructor. apply RV_rec'. cbn [map]. constructor; [|constructor; [|constructor]].
+      + split; [reflexivity|]. intros q1 q2 n' S1 S2. cbn [fst snd] in *. apply same_ctrs_nil in S1, S2. subst.
+        rewrite E. apply relT_val. constructor. constructor.
+      + split; [reflexivity|]. intros q1 q2 n' S1 S2. cbn [fst snd] in *. apply same_ctrs_nil in S1, S2. subst.
+        cbn [tctrs fold_left]. rewrite E. apply access_cong. apply relT_val. constructor. now apply RV_rec'.
+    - (* call *)
+      eapply relR_bind; [apply (HT m)|]. intros v1 v2 HV.
+      inversion HV; subst; try (apply relR_err; discriminate). apply app_rel; auto. now apply atom_rel.
   Qed.
 End Rel.
